@@ -32,6 +32,11 @@
 (*                             overflow checks)                             *)
 (*   D_scan_string_quote       scan_string on a quoted token keeps the      *)
 (*                             closing quote: $INCLUDE "f" -> path f"       *)
+(*   D_del_fast_path           next_ascii_symbol lets a raw DEL (0x7F) pass: *)
+(*                             "a<DEL>" is accepted, "\a<DEL>" (escape first, *)
+(*                             slow path) is a bad symbol; whether the fast   *)
+(*                             path is taken depends on spelling and spacing  *)
+(*                             (the spec abstains under this deviation)       *)
 (*   D_marker_skips_delimiter  skip_unknown_marker skips the octet after    *)
 (*                             "\#" unseen: "\#(" does not open a group,    *)
 (*                             "\#" LF does not end the entry (the spec      *)
@@ -41,8 +46,10 @@ EXTENDS Octets, FiniteSets
 
 CONSTANT Dev
 
-AllDevs == {"D_scan_name_empty_label", "D_charstr_entry_no_token",
-            "D_scan_int_overflow", "D_scan_string_quote", "D_marker_skips_delimiter"}
+\* (D_svcb_key_charset belongs to the SvcParams scanner: keys with 'z' or '9')
+AllDevs == {"D_svcb_key_charset", "D_scan_name_empty_label", "D_charstr_entry_no_token",
+            "D_scan_int_overflow", "D_scan_string_quote", "D_marker_skips_delimiter",
+            "D_del_fast_path"}
 
 SP == 32  TAB == 9  CR == 13  LF == 10  LPAR == 40  RPAR == 41
 SEMI == 59  QUOTE == 34  BSL == 92  DOT == 46  AT == 64  DOLLAR == 36  HASH == 35
@@ -301,6 +308,7 @@ SplitDots(syms, i, cur) ==
 
 LabelWire(p) == <<Len(p)>> \o [i \in 1..Len(p) |-> SymOct(p[i])]
 
+HasRawDel(syms) == \E i \in 1..Len(syms) : syms[i] = 127
 ScanName(tok, origin, dv) ==
   LET syms == tok.syms
       P == SplitDots(syms, 1, <<>>)
@@ -309,6 +317,7 @@ ScanName(tok, origin, dv) ==
   IN IF syms = <<>> THEN (IF origin = <<>> THEN ErrR ELSE [r |-> "ok", n |-> origin])
      ELSE IF syms = <<DOT>> THEN [r |-> "ok", n |-> <<0>>]
      ELSE IF P[1] = <<>> THEN ErrR                                    \* leading dot
+     ELSE IF HasRawDel(syms) /\ "D_del_fast_path" \in dv THEN UnmodR
      ELSE IF \E i \in 1..Len(syms) : ~OctetOk(syms[i]) THEN ErrR
      ELSE IF \E i \in 1..Len(labels) : Len(labels[i]) > 63 THEN ErrR
      ELSE IF (\E i \in 1..Len(labels) : labels[i] = <<>>) /\ "D_scan_name_empty_label" \notin dv
@@ -319,8 +328,9 @@ ScanName(tok, origin, dv) ==
           IN IF Len(full) > 255 THEN ErrR ELSE [r |-> "ok", n |-> full]
 
 \* --- character strings (scan_octets + CharStr::from_octets, convert_charstr)
-ScanCharStr(tok) ==
-  IF \E i \in 1..Len(tok.syms) : ~OctetOk(tok.syms[i]) THEN ErrR
+ScanCharStr(tok, dv) ==
+  IF HasRawDel(tok.syms) /\ "D_del_fast_path" \in dv THEN UnmodR
+  ELSE IF \E i \in 1..Len(tok.syms) : ~OctetOk(tok.syms[i]) THEN ErrR
   ELSE IF Len(tok.syms) > 255 THEN ErrR
   ELSE [r |-> "ok", o |-> LabelWire(tok.syms)]
 
@@ -340,13 +350,13 @@ ScanString(tok, dv) ==
 RdOk(o) == [r |-> "ok", rd |-> o]
 
 \* TXT: scan_charstr_entry
-RECURSIVE TxtFrom(_, _, _)
-TxtFrom(toks, i, acc) ==
+RECURSIVE TxtFrom(_, _, _, _)
+TxtFrom(toks, i, acc, dv) ==
   IF i > Len(toks) THEN RdOk(acc)
-  ELSE LET c == ScanCharStr(toks[i])
-       IN IF c.r # "ok" THEN c ELSE TxtFrom(toks, i + 1, acc \o c.o)
+  ELSE LET c == ScanCharStr(toks[i], dv)
+       IN IF c.r # "ok" THEN c ELSE TxtFrom(toks, i + 1, acc \o c.o, dv)
 RdTxt(toks, i, mode, dv) ==
-  LET body == TxtFrom(toks, i, <<>>) IN
+  LET body == TxtFrom(toks, i, <<>>, dv) IN
   IF body.r # "ok" THEN body
   ELSE IF "D_charstr_entry_no_token" \in dv
        THEN IF mode = "eof" THEN PanicR
@@ -370,9 +380,9 @@ RdMx(toks, i, mode, origin, dv) ==
                IN IF n.r # "ok" THEN n ELSE RdOk(EncU16(p.v) \o n.rd)
 
 \* HINFO: two character strings
-RdHinfo(toks, i, mode) ==
+RdHinfo(toks, i, mode, dv) ==
   IF i + 1 > Len(toks) THEN ErrR
-  ELSE LET a == ScanCharStr(toks[i])  b == ScanCharStr(toks[i + 1])
+  ELSE LET a == ScanCharStr(toks[i], dv)  b == ScanCharStr(toks[i + 1], dv)
        IN IF a.r # "ok" THEN a ELSE IF b.r # "ok" THEN b
           ELSE IF mode # "lf" \/ i + 1 < Len(toks) THEN ErrR ELSE RdOk(a.o \o b.o)
 
@@ -392,9 +402,84 @@ RdGeneric(toks, i, mode, dv) ==
       ELSE IF Len(digits) % 2 # 0 \/ Len(digits) \div 2 # n.v THEN ErrR
       ELSE RdOk([k \in 1..(Len(digits) \div 2) |-> 16 * HexVal(digits[2 * k - 1]) + HexVal(digits[2 * k])])
 
+\* --- SVCB / HTTPS: priority, target, SvcParams (SvcParams::scan with
+\* scan_svcb_octets).  A parameter is one token, or a token with a quoted
+\* token glued on when that follows *directly* (no white space):
+\* key="value".  Modelled: alpn (ids without escapes), port, keyNNNNN with
+\* N >= 10 (values without backslash); other keys: the spec abstains.
+TokOctets(tok) == [i \in 1..Len(tok.syms) |-> SymOct(tok.syms[i])]
+\* a quoted token that scan_svcb_octets reads entirely on its fast path
+\* returns before the glue test
+FastQuoted(tok) == tok.q /\ \A i \in 1..Len(tok.syms) : IsPlain(tok.syms[i]) /\ tok.syms[i] >= 33 /\ tok.syms[i] <= 127
+Glued(toks, j) == j < Len(toks) /\ toks[j + 1].q /\ ~toks[j + 1].sp /\ ~FastQuoted(toks[j])
+
+KeyCharOk(c, dv) ==   \* a-z, 0-9, '-'; the code's half-open ranges leave out 'z' and '9'
+  \/ (c >= 97 /\ c <= (IF "D_svcb_key_charset" \in dv THEN 121 ELSE 122))
+  \/ (c >= 48 /\ c <= (IF "D_svcb_key_charset" \in dv THEN 56 ELSE 57))
+  \/ c = 45
+RECURSIVE IndexOf(_, _, _)
+IndexOf(s, c, i) == IF i > Len(s) THEN 0 ELSE IF s[i] = c THEN i ELSE IndexOf(s, c, i + 1)
+RECURSIVE SplitOn(_, _, _, _)
+SplitOn(s, c, i, cur) == IF i > Len(s) THEN <<cur>>
+                         ELSE IF s[i] = c THEN <<cur>> \o SplitOn(s, c, i + 1, <<>>)
+                         ELSE SplitOn(s, c, i + 1, Append(cur, s[i]))
+K_ALPN == <<97, 108, 112, 110>>  K_PORT == <<112, 111, 114, 116>>  K_KEY == <<107, 101, 121>>
+
+\* one parameter from its octets: [r |-> "ok", k |-> key number, v |-> value octets] / err / unmod
+SvcParam(o, dv) ==
+  LET eq == IndexOf(o, 61, 1)
+      key == IF eq = 0 THEN o ELSE SubSeq(o, 1, eq - 1)
+      val == IF eq = 0 THEN <<>> ELSE SubSeq(o, eq + 1, Len(o))
+  IN IF o = <<>> THEN ErrR
+     ELSE IF \E i \in 1..Len(key) : ~KeyCharOk(key[i], dv) THEN ErrR
+     ELSE IF \E i \in 1..Len(val) : val[i] = BSL \/ val[i] < 33 \/ val[i] > 126 THEN UnmodR
+     ELSE IF key = K_PORT THEN
+        (IF val = <<>> \/ \E i \in 1..Len(val) : ~IsDigit(val[i]) THEN UnmodR
+         ELSE LET p == ParseU(val, 6553, 5) IN IF p.r = "ok" THEN [r |-> "ok", k |-> 3, v |-> EncU16(p.v)] ELSE ErrR)
+     ELSE IF key = K_ALPN THEN
+        LET ids == SplitOn(val, 44, 1, <<>>)
+        IN IF \E i \in 1..Len(ids) : ids[i] = <<>> \/ Len(ids[i]) > 255 THEN UnmodR
+           ELSE [r |-> "ok", k |-> 1, v |-> Concat([i \in 1..Len(ids) |-> <<Len(ids[i])>> \o ids[i]])]
+     ELSE IF Len(key) > 3 /\ SubSeq(key, 1, 3) = K_KEY /\ (\A i \in 4..Len(key) : IsDigit(key[i])) /\ key[4] # 48
+        THEN LET n == ParseU(SubSeq(key, 4, Len(key)), 6553, 5)
+             IN IF n.r # "ok" THEN ErrR ELSE IF n.v < 10 THEN UnmodR ELSE [r |-> "ok", k |-> n.v, v |-> val]
+     ELSE UnmodR
+
+RECURSIVE SvcParams(_, _, _, _)
+SvcParams(toks, j, acc, dv) ==   \* acc: sequence of [k, v] in reading order
+  IF j > Len(toks) THEN [r |-> "ok", ps |-> acc]
+  ELSE LET g == Glued(toks, j)
+           syms == toks[j].syms \o (IF g THEN toks[j + 1].syms ELSE <<>>)
+           o == TokOctets(toks[j]) \o (IF g THEN TokOctets(toks[j + 1]) ELSE <<>>)
+       IN IF HasRawDel(syms) /\ "D_del_fast_path" \in dv THEN UnmodR
+          ELSE IF \E i \in 1..Len(syms) : ~OctetOk(syms[i]) THEN ErrR
+          ELSE LET p == SvcParam(o, dv)
+               IN IF p.r # "ok" THEN p
+                  ELSE IF \E i \in 1..Len(acc) : acc[i].k = p.k THEN ErrR          \* duplicate key
+                  ELSE SvcParams(toks, IF g THEN j + 2 ELSE j + 1, Append(acc, [k |-> p.k, v |-> p.v]), dv)
+
+RECURSIVE SortedParams(_)
+SortedParams(ps) ==   \* wire form, ascending key
+  IF ps = <<>> THEN <<>>
+  ELSE LET m == CHOOSE i \in 1..Len(ps) : \A j \in 1..Len(ps) : ps[i].k <= ps[j].k
+           rest == [i \in 1..(Len(ps) - 1) |-> IF i < m THEN ps[i] ELSE ps[i + 1]]
+       IN EncU16(ps[m].k) \o EncU16(Len(ps[m].v)) \o ps[m].v \o SortedParams(rest)
+
+RdSvcb(toks, i, mode, origin, dv) ==
+  IF i + 1 > Len(toks) THEN ErrR
+  ELSE LET p == ScanU16(toks[i], dv) IN
+    IF p.r # "ok" THEN p
+    ELSE LET n == ScanName(toks[i + 1], origin, dv) IN
+      IF n.r # "ok" THEN n
+      ELSE LET ps == SvcParams(toks, i + 2, <<>>, dv) IN
+        IF ps.r # "ok" THEN ps
+        ELSE IF mode # "lf" THEN ErrR
+        ELSE IF p.v = 0 /\ ps.ps # <<>> THEN UnmodR
+        ELSE RdOk(EncU16(p.v) \o n.n \o SortedParams(ps.ps))
+
 IsMarker(tok) == ~tok.q /\ tok.syms = <<256 + HASH>>
 NameTypes == {2, 5, 12, 39}          \* NS CNAME PTR DNAME (one name each)
-ModelledTypes == NameTypes \cup {13, 15, 16}
+ModelledTypes == NameTypes \cup {13, 15, 16, 64, 65}
 
 Rdata(rtype, toks, i, mode, origin, dv) ==
   IF i <= Len(toks) /\ IsMarker(toks[i])
@@ -404,7 +489,8 @@ Rdata(rtype, toks, i, mode, origin, dv) ==
   ELSE IF rtype = 16 THEN RdTxt(toks, i, mode, dv)
   ELSE IF rtype \in NameTypes THEN RdName(toks, i, mode, origin, dv)
   ELSE IF rtype = 15 THEN RdMx(toks, i, mode, origin, dv)
-  ELSE IF rtype = 13 THEN RdHinfo(toks, i, mode)
+  ELSE IF rtype = 13 THEN RdHinfo(toks, i, mode, dv)
+  ELSE IF rtype \in {64, 65} THEN RdSvcb(toks, i, mode, origin, dv)
   ELSE UnmodR
 
 \* ------------------------------------------------------ entry machine
